@@ -4,6 +4,7 @@ import (
 	"bufio"
 	"fmt"
 	"os"
+	"strings"
 )
 
 // configuration sampler for the collection family
@@ -139,6 +140,10 @@ func famColl(w *bufio.Writer, seed uint64, n, labels int, mode, replay string) e
 			return err
 		}
 		cfg := Config{LL: "store", MMPn: 8, MMPd: 10, MaxPre: 6, Concern: 0, LevelMaxSegs: 2, LevelMult: 3, PctN: 65, PctD: 100, NoSync: true}
+		if strings.Contains(string(text), "\ncfg leveled\n") {
+			// leveled (partial) compaction allowed, threshold 1.0: page padding does not count as fragmentation
+			cfg.Concern, cfg.PctN, cfg.PctD = 1, 1, 1
+		}
 		_, err = runCollCase(w, 0, seed, cfg, len(sc), genOpts{childPct: 45, mergeW: 20, script: sc})
 		return err
 	}
